@@ -60,13 +60,24 @@ def greedy_shapes():
     return out
 
 
+def samebase_pairs():
+    """two repetitions over the SAME base with different operator/separator:
+    the helper rules must be shared or kept apart exactly as documented (one
+    helper per base, operator kind and separator)"""
+    its = [(b, o, sp_) for b in ("a", "A") for o in ("*", "+")
+           for sp_ in ("", "[c]", "[C]")]
+    return [(x, ("b", "", ""), y) for x in its for y in its]
+
+
 def plan(tier, seed):
     if tier == "quick":
         return [dict(fam="items", n=1, nmax=5), dict(fam="items", n=2, nmax=4,
                                                      win=(seed, 12)),
+                dict(fam="samebase", nmax=5),
                 dict(fam="greedy", nmax=5), dict(fam="collision"),
                 dict(fam="imported", nmax=4)]
     return [dict(fam="items", n=1, nmax=5), dict(fam="items", n=2, nmax=5),
+            dict(fam="samebase", nmax=5),
             dict(fam="items", n=3, nmax=4), dict(fam="greedy", nmax=6),
             dict(fam="collision"), dict(fam="imported", nmax=5)]
 
@@ -82,6 +93,11 @@ def units(tier, seed):
             for i in range(0, len(idxs), 6):
                 out.append(dict(fam="items", n=row["n"], nmax=row["nmax"],
                                 idx=idxs[i:i + 6]))
+        elif row["fam"] == "samebase":
+            n = len(samebase_pairs())
+            for i in range(0, n, 6):
+                out.append(dict(fam="items", n="sb", nmax=row["nmax"],
+                                idx=list(range(i, min(n, i + 6)))))
         elif row["fam"] == "greedy":
             n = len(greedy_shapes())
             for i in range(0, n, 6):
@@ -240,7 +256,7 @@ def items_unit(u):
     judge = Judge(PROP, KNOWN)
     st = collections.Counter()
     inputs = spaces.strings("ab,z", u["nmax"])
-    shp = shapes(u["n"])
+    shp = samebase_pairs() if u["n"] == "sb" else shapes(u["n"])
     samples = []
     for si in u["idx"]:
         seq = shp[si]
